@@ -144,6 +144,7 @@ void h_query(void) {
     if (!in.st.known) V_ASSERT(ST->mapper_known == 1 && mac6_eq(ST->mapper_real.a, in.frame + F_RSRC), "C03,C05: a Query that opens the session makes its real source the mapper (later Discovers from it are the accepted ones)");
     else if (mac6_eq(in.frame + F_RSRC, in.st.mreal)) V_ASSERT(ST->mapper_known == 1 && mac6_eq(ST->mapper_real.a, in.st.mreal), "C05: a Query from the active mapper keeps it the mapper");
     V_ASSERT(ST->mapper_seq == be16(in.frame + F_SEQ), "C07: sequence number of the Query remembered");
+    assert_mapp_step(ST);
     V_WITNESS("h_query end");
 }
 
